@@ -118,6 +118,7 @@ def link_grammar(ctx, mutate=None, tag=""):
     # ---- the LR tables sly generated vs an INDEPENDENT LALR(1) construction from G_ref (translation validation of the
     #      table generator; the LR driver loop itself stays an assumed contract)
     out.extend(lr_table_obligations(T, G, pre, rn))
+    out.extend(accessor_obligations(T, pre))
     # ---- error(): must be a first-party override that always raises
     if T["error_is_sly_default"]:
         out.append(Obl(pre + "ExperimentParser.error/rejects(raises)", FN + ".error", "post",
@@ -176,6 +177,44 @@ def link_grammar(ctx, mutate=None, tag=""):
                            detail="action raises %s" % e, props=props, model={"raises": str(e)}, replay=action_replay))
         except (S.Unsupported, S.Undetermined) as e:
             out.append(Obl(oid, FN + "." + key[0], "post", "action body inside the supported subset", status=UNDECIDED, backend="structural", detail=str(e), props=props))
+    return out
+
+
+def accessor_obligations(T, pre):
+    """the accessors grammar actions use on the production object (p.NAME, p.NAMEk, p[i], len(p)), probed on the LIVE
+    production objects through the real YaccProduction wrapper with a slice of distinct sentinels: complete for the finite
+    table.  Convention (sly documentation): a right-hand-side symbol that occurs once is named by its name, the k-th of
+    several occurrences by name + k (from 0); p[i] is the i-th symbol's value."""
+    out = []
+    probes = {p["number"]: p for p in T.get("accessor_probes", [])}
+    if not probes:
+        return [Obl(pre + "accessors/probed", FN, "table", "accessor probes available", status=UNDECIDED, backend="native", detail="missing", props=("C02", "C05", "C07"))]
+    bad = []
+    for p in T["productions"]:
+        pr = probes.get(p["number"])
+        rhs = p["rhs"]
+        if pr is None:
+            bad.append("production %d not probed" % p["number"])
+            continue
+        want, seen = {}, {}
+        for i, x in enumerate(rhs):
+            if rhs.count(x) > 1:
+                want["%s%d" % (x, seen.get(x, 0))] = "sentinel-%d" % i
+                seen[x] = seen.get(x, 0) + 1
+            else:
+                want[x] = "sentinel-%d" % i
+        if pr["by_name"] != want:
+            bad.append("%s -> %s: names give %r, documented %r" % (p["name"], " ".join(rhs), pr["by_name"], want))
+        if pr["by_index"] != ["sentinel-%d" % i for i in range(len(rhs))]:
+            bad.append("%s -> %s: p[i] gives %r" % (p["name"], " ".join(rhs), pr["by_index"]))
+        if pr["len_attr"] != len(rhs) or pr["len_fn"] != len(rhs):
+            bad.append("%s -> %s: len %r / %r" % (p["name"], " ".join(rhs), pr["len_attr"], pr["len_fn"]))
+        if pr["unknown_name"] != "AttributeError":
+            bad.append("%s -> %s: unknown symbol name %s" % (p["name"], " ".join(rhs), pr["unknown_name"]))
+    out.append(Obl(pre + "accessors/p.NAME,p[i],len(p)-select-the-documented-symbol", FN, "table",
+                   "on every live production: each name selects the value of the documented right-hand-side symbol, p[i] the i-th, p.len == len(p) == |rhs|, an unknown name raises AttributeError",
+                   status=DISCHARGED if not bad else REFUTED, backend="table-probe", detail="; ".join(bad)[:1500], props=("C02", "C05", "C07", "C03"),
+                   model={"mismatches": bad[:5]} if bad else None, replay=action_replay))
     return out
 
 
